@@ -8,9 +8,12 @@ import (
 	"context"
 	"encoding/json"
 	"fmt"
+	"html"
 	"net/http"
 	"net/http/httptest"
 	"net/netip"
+	"strconv"
+	"strings"
 	"sync"
 
 	"github.com/tailscale/setec/audit"
@@ -277,4 +280,48 @@ func (s *Srv) ClientDo(remoteAddr string) func(*http.Request) (*http.Response, e
 		s.Mux.ServeHTTP(rec, r2)
 		return rec.Result(), nil
 	}
+}
+
+// Dashboard loads the HTML listing ("GET /") as the peer at remoteAddr and parses the rows of its table back
+// into (name, versions, active version). ok is false when the page is not a 200 or cannot be parsed.
+func (s *Srv) Dashboard(remoteAddr string, hdr map[string]string) (infos []refmodel.Info, rep Reply, ok bool) {
+	rep = s.Raw("GET", "/", remoteAddr, hdr, nil)
+	if rep.Status != 200 {
+		return nil, rep, false
+	}
+	rows := strings.Split(string(rep.Body), "<tr>")
+	if len(rows) < 2 {
+		return nil, rep, false
+	}
+	for _, row := range rows[2:] { // rows[0] is the preamble, rows[1] the header row
+		a := strings.Index(row, "<td>")
+		b := strings.Index(row, "</td>")
+		if a < 0 || b < a {
+			return nil, rep, false
+		}
+		in := refmodel.Info{Name: html.UnescapeString(row[a+4 : b])}
+		rest := row[b+5:]
+		a, b = strings.Index(rest, "<td>"), strings.Index(rest, "</td>")
+		if a < 0 || b < a {
+			return nil, rep, false
+		}
+		for _, f := range strings.Split(rest[a+4:b], ",") {
+			f = strings.TrimSpace(f)
+			bold := strings.HasPrefix(f, "<b>")
+			f = strings.TrimSuffix(strings.TrimPrefix(f, "<b>"), "</b>")
+			if f == "" {
+				continue
+			}
+			v, err := strconv.ParseUint(f, 10, 32)
+			if err != nil {
+				return nil, rep, false
+			}
+			in.Versions = append(in.Versions, uint32(v))
+			if bold {
+				in.Active = uint32(v)
+			}
+		}
+		infos = append(infos, in)
+	}
+	return infos, rep, true
 }
